@@ -769,7 +769,30 @@ func lockRule(c *Ctx, ru *Rule, spec lockSpec) {
 					checkAt(parent, mc, h, q.root, nil, "closure "+fnKey(f)+" created/used")
 				}
 				if len(closureSites[f]) == 0 {
-					fail("closure with a lock requirement has no creation site (" + q.origin + ")")
+					// a function literal without captured variables is a plain
+					// function value: find where the parent hands it out
+					used := false
+					allInstrs(parent, func(in ssa.Instruction) {
+						for _, op := range in.Operands(nil) {
+							if op == nil || *op != ssa.Value(f) {
+								continue
+							}
+							used = true
+							h := heldSet{}
+							switch u := in.(type) {
+							case *ssa.Call:
+								if u.Call.Value == ssa.Value(f) || syncCallbackCallees[calleeKey(u)] {
+									h = flow(parent).must[u]
+								}
+							case *ssa.Defer:
+								h = flow(parent).must[u]
+							}
+							checkAt(parent, in, h, q.root, nil, "function literal "+fnKey(f)+" used")
+						}
+					})
+					if !used {
+						fail("closure with a lock requirement has no creation site (" + q.origin + ")")
+					}
 				}
 				continue
 			}
